@@ -365,25 +365,6 @@ fn part_b(rep: &mut Report, seed: u64, index: u64) {
 // (c) the same rule through the client: descriptors carry transport hints as relying parties send them
 // ---------------------------------------------------------------------------------------------
 
-/// base64url text of `bytes` whose last symbol carries set spare bits where the length leaves any
-fn non_canonical_b64url(bytes: &[u8]) -> String {
-    const A: &[u8; 64] = b"ABCDEFGHIJKLMNOPQRSTUVWXYZabcdefghijklmnopqrstuvwxyz0123456789-_";
-    let mut s = oracle::b64url(bytes).into_bytes();
-    let spare = match bytes.len() % 3 {
-        1 => 4,
-        2 => 2,
-        _ => 0,
-    };
-    if spare > 0 {
-        if let Some(last) = s.last_mut() {
-            if let Some(v) = A.iter().position(|c| c == last) {
-                *last = A[v | ((1 << spare) - 1)];
-            }
-        }
-    }
-    String::from_utf8(s).unwrap_or_default()
-}
-
 fn hinted(id: &[u8], rng: &mut Rng) -> PublicKeyCredentialDescriptor {
     use passkey_types::webauthn::AuthenticatorTransport as T;
     let all = [T::Usb, T::Nfc, T::Ble, T::Hybrid, T::Internal];
@@ -461,7 +442,7 @@ fn part_c(rep: &mut Report, seed: u64, index: u64) {
                     if let Some(l) = v["publicKey"]["excludeCredentials"].as_array_mut() {
                         for d in l.iter_mut() {
                             let bytes: Vec<u8> = d["id"].as_array().map(|a| a.iter().filter_map(|x| x.as_u64().map(|b| b as u8)).collect()).unwrap_or_default();
-                            d["id"] = json!(non_canonical_b64url(&bytes));
+                            d["id"] = json!(oracle::b64url_spare_bits_set(&bytes));
                         }
                     }
                     // members the struct holds as None are written as null by the derive; a relying party
